@@ -49,6 +49,9 @@ def run(ck):
     recs = [r for r in recs if "ev" in r]
     if not recs:
         raise vf.Infra("driver produced no runs")
+    for r in recs:       # a call that was given up is marked by the driver; the acceptor sees the history up to there
+        r["noreturn"] = any(e["t"] == "noreturn" for e in r["ev"])
+        r["ev"] = [e for e in r["ev"] if e["t"] != "noreturn"]
     obs = "\n".join(json.dumps({"n": r["n"], "ev": r["ev"]}) for r in recs) + "\n"
     r2 = ck.tlc("Fanout", "MC_Fanout_obs.cfg", files={"fanout_obs.ndjson": obs}, count=False)
     verdict = {x["c"] - 1: x["e"] for x in r2.printed}
@@ -67,6 +70,11 @@ def run(ck):
         if i % (len(recs) // 4 + 1) == 0:
             ck.sample({"plan": r["plan"], "history": ev if len(ev) < 14 else ev[:6] + ["..."] + ev[-2:], "verdict": v})
         if v["ok"]:
+            if not v["returned"] and r.get("noreturn") and sum(1 for e in ev if e["t"] == "fin") == r["n"]:
+                ck.violation("C46:never-returns:%s" % ("no-task" if r["n"] == 0 else "tasks-finished"),
+                             "promise.All with %d tasks did not return within 4 s although every task had finished; plan=%s history=%s"
+                             % (r["n"], json.dumps(r["plan"])[:900], json.dumps(ev)[:1200]), {"index": r["plan"]["index"], "seed": ck.seed})
+                continue
             if not v["returned"]:
                 raise vf.Infra("history without a return event (run %d)" % r["plan"]["index"])
             continue
